@@ -3,11 +3,15 @@ C06 — driver: replays an implementation trace through the model (correspondenc
 cache commands with their outcome, complete cache dump with TTLs after every operation) and through the
 monitor of Spec.lean (the property's clauses on the implementation's own observations).
 
+Section cfg:  exp=<ms> nf=<ms> nodes=<1..4> type=<node|cluster> place=<key>:<node>,…|-   (unlisted keys: node 0)
 Ops (see harness/overlay/core/stores/sqlc/zz_verif_c06_test.go):
-  take p<pk> [j=] [c=<mask>] [db=1] | qindex x<a> … | get <key> [c=] | exec <keys|-> put:<pk>:<v>:<a>|rm:<pk> [c=] [db=1]
-  del <keys|-> [c=] | set <key> <val> [j=] [c=] | setx <key> <val> <ms> [j=] [c=] | raw <key> <val> <ttl-ms>
-  ft <ms> | tick <n> c=<0|1>
-Obs:  <res> q=<n> cmds=<cmd:ok|fail,…|-> | <key>=<val>@<ttl-ms> …
+  take p<pk> [j=] [c=<mask>] [db=1] | qindex x<a> … | get <key> [c=]          mask: i-th cache command of the op
+  exec <keys|-> put:<pk>:<v>:<a>|rm:<pk> [c=<m0>/<m1>/…] [db=1] | del <keys|-> [c=<m0>/<m1>/…]
+                                                                   mask per node: i-th DEL sent to that node
+  set <key> <val> [j=] [c=] | setx <key> <val> <ms> [j=] [c=] | raw <key> <val> <ttl-ms>
+  ft <ms> | tick <n> c=<bit per node: 1 = node down>
+Obs:  <res> q=<n> cmds=<cmd>/<node>/<key+key…>:ok|fail,…|-> | <node>/<key>=<val>@<ttl-ms> …
+      (commands of exec/del stably sorted by node — cacheCluster.DelCtx ranges over a map —, of tick sorted)
 -/
 import GoZero.Base.Trace
 import GoZero.C06.Spec
@@ -16,6 +20,7 @@ namespace GoZero.C06
 open GoZero
 
 def maxKeyIdx : Nat := 7
+def maxNodes : Nat := 4
 
 def parseKey (t : String) : Option CKey :=
   match t.toList with
@@ -41,6 +46,27 @@ def optMask (toks : List String) : Option (List Bool) :=
   match kv? toks "c" with
   | some v => parseMask v
   | none => some []
+
+/-- per-node masks `m0/m1/…` of exec / del. -/
+def optMasks (toks : List String) : Option (List (List Bool)) :=
+  match kv? toks "c" with
+  | some v => (v.splitOn "/").mapM parseMask
+  | none => some []
+
+/-- `place=p0:1,x0:2` of the section cfg: the dispatch function (unlisted keys live on node 0). -/
+def parsePlace (t : String) (nodes : Nat) : Option (List (CKey × Nat)) :=
+  if t = "-" || t = "" then some []
+  else (t.splitOn ",").mapM fun e => match e.splitOn ":" with
+    | [k, n] => do
+      let k ← parseKey k
+      let n ← n.toNat?
+      if n < nodes then some (k, n) else none
+    | _ => none
+
+def placeOf (l : List (CKey × Nat)) (k : CKey) : Nat :=
+  match l.find? (·.1 = k) with
+  | some e => e.2
+  | none => 0
 
 def optJ (toks : List String) : Option Nat :=
   match kv? toks "j" with
@@ -86,8 +112,8 @@ def parseOp : List String → Option (Op × Nat)
     | _ => none
   | "get" :: k :: rest => do pure (.get (← parseKey k) (← optMask rest), 1)
   | "exec" :: ks :: w :: rest => do
-    pure (.exec (← parseKeys ks) (← parseWrite w) (← optMask rest) (← optDb rest), 1)
-  | "del" :: ks :: rest => do pure (.del (← parseKeys ks) (← optMask rest), 1)
+    pure (.exec (← parseKeys ks) (← parseWrite w) (← optMasks rest) (← optDb rest), 1)
+  | "del" :: ks :: rest => do pure (.del (← parseKeys ks) (← optMasks rest), 1)
   | "set" :: k :: v :: rest => do
     let k ← parseKey k
     let v ← parseVal v
@@ -102,9 +128,7 @@ def parseOp : List String → Option (Op × Nat)
   | ["ft", ms] => do pure (.ft (← ms.toNat?), 1)
   | "tick" :: n :: rest => do
     let m ← optMask rest
-    match m with
-    | [b] => pure (.tick b, ← n.toNat?)
-    | _ => none
+    if m = [] then none else pure (.tick m, ← n.toNat?)
   | _ => none
 
 /-! ### printing -/
@@ -126,21 +150,38 @@ def showRes : Res → String
   | .dberr => "dberr"
   | .cacheerr => "cacheerr"
 
-def showCmd : Cmd × Bool → String
-  | (c, f) => (match c with | .get => "get" | .set => "set" | .setnx => "setnx" | .del => "del") ++ (if f then ":fail" else ":ok")
+def showCmd (r : CmdRec) : String :=
+  (match r.cmd with | .get => "get" | .set => "set" | .setnx => "setnx" | .del => "del")
+    ++ s!"/{r.node}/" ++ "+".intercalate (r.keys.map showKey) ++ (if r.fail then ":fail" else ":ok")
 
-def showCmds (l : List (Cmd × Bool)) : String :=
-  if l = [] then "-" else ",".intercalate (l.map showCmd)
+def insertBy {α : Type} (le : α → α → Bool) (x : α) : List α → List α
+  | [] => [x]
+  | y :: ys => if le y x then y :: insertBy le x ys else x :: y :: ys
+
+/-- stable insertion sort. -/
+def sortBy {α : Type} (le : α → α → Bool) (l : List α) : List α := l.foldl (fun acc x => insertBy le x acc) []
+
+/-- canonical order of the commands of an operation (the same the harness applies): exec / del stably by
+node, tick by the printed text, everything else in issue order. -/
+def canonCmds (kind : String) (l : List CmdRec) : List String :=
+  if kind = "exec" || kind = "del" then (sortBy (fun a b => a.node ≤ b.node) l).map showCmd
+  else if kind = "tick" then sortBy (fun a b => a ≤ b) (l.map showCmd)
+  else l.map showCmd
+
+def showCmds (l : List String) : String :=
+  if l = [] then "-" else ",".intercalate l
 
 def keyUniverse : List CKey := (List.range (maxKeyIdx + 1)).map .p ++ (List.range (maxKeyIdx + 1)).map .x
 
+def slotUniverse : List Slot := (List.range maxNodes).flatMap fun n => keyUniverse.map fun k => (n, k)
+
 def showDump (s : St) : List String :=
-  keyUniverse.filterMap fun k => match s.cache k with
-    | some e => some s!"{showKey k}={showVal e.val}@{e.ttl}"
+  slotUniverse.filterMap fun k => match s.cache k with
+    | some e => some s!"{k.1}/{showKey k.2}={showVal e.val}@{e.ttl}"
     | none => none
 
-def showOut (s : St) (o : Out) : List String :=
-  [showRes o.res, s!"q={o.q}", s!"cmds={showCmds o.cmds}", "|"] ++ showDump s
+def showOut (kind : String) (s : St) (o : Out) : List String :=
+  [showRes o.res, s!"q={o.q}", s!"cmds={showCmds (canonCmds kind o.cmds)}", "|"] ++ showDump s
 
 /-! ### parsing the observation -/
 
@@ -152,23 +193,28 @@ def parseRes (t : String) : Option Res :=
   else if t.startsWith "val:" then (parseVal (t.drop 4).toString).map .val
   else none
 
-def parseCmd (t : String) : Option (Cmd × Bool) :=
+def parseCmd (t : String) : Option CmdRec :=
   match t.splitOn ":" with
-  | [c, r] => do
-    let c ← match c with | "get" => some Cmd.get | "set" => some .set | "setnx" => some .setnx | "del" => some .del | _ => none
-    let r ← match r with | "ok" => some false | "fail" => some true | _ => none
-    pure (c, r)
+  | [c, r] => match c.splitOn "/" with
+    | [c, n, ks] => do
+      let c ← match c with | "get" => some Cmd.get | "set" => some .set | "setnx" => some .setnx | "del" => some .del | _ => none
+      let n ← n.toNat?
+      let ks ← (ks.splitOn "+").mapM parseKey
+      let r ← match r with | "ok" => some false | "fail" => some true | _ => none
+      if n < maxNodes then pure ⟨c, n, ks, r⟩ else none
+    | _ => none
   | _ => none
 
 def parseObsEntry (t : String) : Option Spec.Obs :=
   match t.splitOn "=" with
-  | [k, rest] => match rest.splitOn "@" with
-    | [v, ttl] => do
+  | [nk, rest] => match nk.splitOn "/", rest.splitOn "@" with
+    | [n, k], [v, ttl] => do
+      let n ← n.toNat?
       let k ← parseKey k
       let v ← parseVal v
       let ttl ← if ttl = "inf" then some none else ttl.toNat?.map some
-      pure ⟨k, v, ttl⟩
-    | _ => none
+      if n < maxNodes then pure ⟨n, k, v, ttl⟩ else none
+    | _, _ => none
   | _ => none
 
 def parseObs (toks : List String) : Option Spec.ObsLine :=
@@ -193,22 +239,54 @@ def iterStep (c : Cfg) (s : St) (op : Op) : Nat → St × Out → St × Out
 def opKind : Op → String
   | .take .. => "take" | .qindex .. => "qindex" | .get .. => "get" | .exec .. => "exec" | .del .. => "del"
   | .set _ _ none _ _ => "set" | .set _ _ (some e) _ _ => if e ≤ 0 then "setx-nonpositive" else "setx"
-  | .raw .. => "raw" | .ft .. => "ft" | .tick cf => if cf then "tick-failing" else "tick"
+  | .raw .. => "raw" | .ft .. => "ft" | .tick .. => "tick"
 
-def coverOf (s s' : St) (op : Op) (o : Out) : List String :=
-  let f := if o.cmds.any (·.2) then ["cmd-fault"] else []
+def nodesIn (l : List CmdRec) : List Nat := (l.map (·.node)).eraseDups
+
+def coverOf (c : Cfg) (s s' : St) (op : Op) (o : Out) : List String :=
+  let f := if o.cmds.any (·.fail) then ["cmd-fault"] else []
+  let dels := o.cmds.filter (·.cmd = .del)
+  let onNode (n : Nat) := dels.filter (·.node = n)
+  let delCover : List String := match op with
+    | .exec ks _ _ false | .del ks _ =>
+      (if (nodesIn dels).length ≥ 2 then ["del-multi-node"] else [])
+      ++ (if (nodesIn dels).any (fun n => (onNode n).length ≥ 2) then ["del-per-key-loop"] else [])
+      ++ (if (nodesIn dels).any (fun n => (onNode n).length ≥ 2 && ((onNode n).head?.map (·.fail)).getD false
+              && (onNode n).any (!·.fail)) then ["del-loop-first-fails-later-ok"] else [])
+      ++ (if (nodesIn dels).any (fun n => (onNode n).length ≥ 2 && !((onNode n).head?.map (·.fail)).getD true
+              && (onNode n).any (·.fail)) then ["del-loop-later-fails"] else [])
+      ++ (if (nodesIn dels).any (fun n => (onNode n).length ≥ 2 && (onNode n).all (·.fail)) then ["del-loop-all-fail"] else [])
+      ++ (if (nodesIn dels).any (fun n => (onNode n).all (·.fail)) && (nodesIn dels).any (fun n => (onNode n).all (!·.fail))
+          then ["del-one-node-down-others-up"] else [])
+      ++ (if dels.any (fun r => r.keys.length ≥ 2) then ["del-multi-key-single-command"] else [])
+      ++ (if ks.eraseDups.length < ks.length then ["del-duplicate-keys"] else [])
+      ++ (if c.cluster && ks.length = 1 then ["del-single-key-cluster-type"] else [])
+    | _ => []
+  let readCover : List String := match op with
+    | .qindex .. =>
+      (if (nodesIn o.cmds).length ≥ 2 then ["qindex-two-nodes"] else [])
+      ++ (if (nodesIn o.cmds).length ≥ 2 && o.cmds.any (fun r => r.fail && (o.cmds.head?.map (·.node)).getD 0 ≠ r.node)
+              && o.cmds.any (fun r => !r.fail) then ["qindex-other-node-fails"] else [])
+    | .tick down =>
+      (if o.cmds.any (·.fail) && o.cmds.any (!·.fail) then ["tick-some-nodes-down"] else [])
+      ++ (if o.cmds.any (·.fail) then ["tick-retry-failed"] else [])
+      ++ (if o.cmds.any (!·.fail) then ["tick-retry-succeeded"] else [])
+      ++ (if down.any id && down.any (!·) then ["tick-partial-outage"] else [])
+    | _ => []
   let r := match o.res with
     | .ok => [] | .val _ => ["res-val"] | .notfound => ["res-notfound"] | .dberr => ["res-dberr"] | .cacheerr => ["res-cacheerr"]
   let t := if s'.tasks.length > s.tasks.length then ["clean-task-armed"] else []
   let g := if s'.gaveUp > s.gaveUp then ["cleaner-gave-up"] else []
   let d := match op with
     | .tick _ => (if o.cmds ≠ [] then ["tick-retry-ran"] else [])
-    | .ft _ => if keyUniverse.any (fun k => (s.cache k).isSome && (s'.cache k).isNone) then ["ft-expired"] else []
-    | .take .. | .qindex .. => (if o.cmds.any (· = (.del, false)) || o.cmds.any (· = (.del, true)) then ["junk-reload"] else [])
-        ++ (if o.cmds.any (·.1 = .setnx) then ["placeholder-write"] else [])
+    | .ft _ => if slotUniverse.any (fun k => (s.cache k).isSome && (s'.cache k).isNone) then ["ft-expired"] else []
+    | .take .. | .qindex .. => (if o.cmds.any (·.cmd = .del) then ["junk-reload"] else [])
+        ++ (if o.cmds.any (·.cmd = .setnx) then ["placeholder-write"] else [])
     | _ => []
-  let st := if keyUniverse.any (fun k => match s'.cache k with | some e => e.origin = .stale | none => false) then ["state-has-stale-entry"] else []
-  f ++ r ++ t ++ g ++ d ++ st
+  let st := if slotUniverse.any (fun k => match s'.cache k with | some e => e.origin = .stale | none => false) then ["state-has-stale-entry"] else []
+  let occ := (List.range maxNodes).filter fun n => keyUniverse.any fun k => (s'.cache (n, k)).isSome
+  let mn := if occ.length ≥ 2 then ["state-entries-on-several-nodes"] else []
+  f ++ r ++ t ++ g ++ d ++ st ++ delCover ++ readCover ++ mn
 
 /-- observation of a concurrent read, reduced to the shape of a sequential one for the monitor. -/
 def concObs (toks : List String) : List String :=
@@ -216,11 +294,22 @@ def concObs (toks : List String) : List String :=
     fun t => if t = "q=ok" then "q=1" else t
 
 def runSection (r : Report) (sec : Section) : Report := Id.run do
-  let c := Cfg.ofOptions (kvNat sec.cfg "exp" 0) (kvNat sec.cfg "nf" 0)
+  let nodes := kvNat sec.cfg "nodes" 1
+  let typ := kvStr sec.cfg "type" "node"
   let report := kvStr sec.cfg "stale" "carve" = "report"
+  let mut r := r
+  let place ← match parsePlace (kvStr sec.cfg "place" "-") nodes with
+    | some l => pure l
+    | none =>
+      r := r.mismatch sec.idx 0 "bad-cfg" (joinSp sec.cfg)
+      pure []
+  if nodes = 0 || nodes > maxNodes || !(typ = "node" || typ = "cluster") then
+    return r.mismatch sec.idx 0 "bad-cfg" (joinSp sec.cfg)
+  let c : Cfg := { Cfg.ofOptions (kvNat sec.cfg "exp" 0) (kvNat sec.cfg "nf" 0) with
+                   cluster := typ = "cluster", place := placeOf place }
+  r := r.addCover s!"section-nodes-{nodes}-{typ}"
   let mut s := St.init
   let mut mon := Spec.Mon.init
-  let mut r := r
   for l in sec.lines do
     match parseOp l.op with
     | none => r := r.mismatch sec.idx l.idx "bad-op" (joinSp l.op)
@@ -235,7 +324,7 @@ def runSection (r : Report) (sec : Section) : Report := Id.run do
           -- fault every reader that is not sharing a flight re-queries (1 ≤ q ≤ n, printed as `ok`)
           joinSp ([showRes res.2.res, (if dbf && res.2.q = 1 then "q=ok" else s!"q={res.2.q}"), "cmds=-",
                    s!"inflight={res.2.q}", "distinct=1", "|"] ++ showDump res.1)
-        else joinSp (showOut res.1 res.2)
+        else joinSp (showOut (opKind op) res.1 res.2)
       let impl := joinSp l.obs
       if conc then
         r := r.addCover "concurrent-readers"
@@ -243,7 +332,7 @@ def runSection (r : Report) (sec : Section) : Report := Id.run do
           r := r.violation sec.idx l.idx s!"single-loader: more than one database query in flight op=[{joinSp l.op}] impl=[{impl}]"
         if kvNat l.obs "distinct" 99 ≠ 1 then
           r := r.violation sec.idx l.idx s!"single-loader: concurrent readers received different results op=[{joinSp l.op}] impl=[{impl}]"
-      for t in coverOf s res.1 op res.2 do r := r.addCover t
+      for t in coverOf c s res.1 op res.2 do r := r.addCover t
       if model ≠ impl then r := r.mismatch sec.idx l.idx model impl
       match parseObs (if conc then concObs l.obs else l.obs) with
       | none => r := r.violation sec.idx l.idx s!"unreadable observation [{impl}] op=[{joinSp l.op}]"
